@@ -9,7 +9,7 @@ def classify(case):
     task, a difference at a task that was not in Abort - is not keyed and stays a VIOLATION"""
     obs = case.get("observed") or {}
     rs = obs.get("restarts") or []
-    classes = [r.get("class") for r in rs]
+    classes = [r.get("class") for r in rs] + [r.get("class") for r in (obs.get("stops") or [])]
     releases_ok = all(r[1] for r in (obs.get("releases") or []))
     if releases_ok and classes and all(c in ("same", "abort-only") for c in classes) and "abort-only" in classes:
         return "restart-with-task-in-abort"
@@ -26,7 +26,7 @@ SPEC = dict(
              ev=dict(requires=["V.models.Restart"], case_type="Restart.ocase",
                      mismatch="(fun _ => false)", monitor="Restart.omonitor_fail")),
         dict(name="restart", kind="test", pkg="./overlord/state", run="TestVerifC04Restart",
-             n=dict(quick=40, thorough=1500), timeout=dict(quick=300, thorough=1800),
+             n=dict(quick=30, thorough=1500), timeout=dict(quick=300, thorough=1800),
              ev=dict(requires=["V.models.Restart"], case_type="Restart.case",
                      mismatch="Restart.mismatch", monitor="Restart.monitor_fail")),
     ],
@@ -46,6 +46,10 @@ SPEC = dict(
           "task past Doing in the payload, no undo start for Undone/Hold/Error, at least one start for a task persisted "
           "Doing/Undoing; what a handler recorded before releasing the lock is in the payload a crash would find right after the "
           "release and at every later crash point (half of the handlers release through st.Unlocker(), the others through Unlock). "
+          "At every crash point with handlers in flight also a GRACEFUL STOP: the history replayed on a fresh state, "
+          "TaskRunner.Stop() while the do/undo handlers are blocked (they give up with a plain cancellation error once the "
+          "runner is stopping and their tomb is dying), ReadState of the last payload, fresh runner, policy: a stopped handler "
+          "must leave its task in Doing/Undoing (Abort: Undo/Hold) and the run must end like the baseline. "
           "Non-trivial = some restart caught a task in Doing or Undoing. "
           "Driver ckptorder: 1-3 goroutines doing 4-12 lock/modify/unlock cycles each (every modification bumps a sequence "
           "marker stored in the state data) concurrently with a TaskRunner executing a chain of 1-3 tasks whose handlers also "
